@@ -19,9 +19,9 @@ def rng_for(*coords):
     return random.Random(int.from_bytes(h[:8], "big"))
 
 
-STRINGS = ["", "x", "héllo \U0001F40D", "a/b c", "id", "kind", "command", "range", "0", "null", "line\nbreak\t\"q\"", " z"]
+STRINGS = ["", "x", "héllo \U0001F40D", "a/b c", "id", "kind", "command", "range", "0", "null", "line\nbreak\t\"q\"", " z", "a\x00b", "\ud800 lone surrogate", "é vs é", "  ", "\\u0041 \\n not-an-escape", "long " + "xy" * 6000]
 URIS = ["file:///a/b.py", "untitled:Untitled-1", "file:///c%3A/x%20y/z.ts", "vscode-notebook-cell://x#1"]
-DECIMALS = [0.5, 1.0, -2.25, 1e-3, 0.0, 255.0, 1e21, -0.0]
+DECIMALS = [0.5, 1.0, -2.25, 1e-3, 0.0, 255.0, 1e21, -0.0, 1e3, 5e-324, 1.7976931348623157e308]
 
 
 def to_json(n):
